@@ -24,7 +24,11 @@ def gen_cases(tier, seed, salt):
         st = structs[int(sub.integers(len(structs)))]
         spec = S.gen_spec(sub, structure=st, fams=["weibull", "lognormal", "lnnf", "expweib", "gengamma", "normal"], allow_hostile=True)
         alpha = float(10 ** sub.uniform(-6, math.log10(0.3)))
-        mode = str(sub.choice(["explicit", "explicit", "explicit", "too-small", "default-limits" if not three else "explicit", "bimodal" if not three else "explicit"]))
+        mode = str(sub.choice(["explicit", "explicit", "explicit", "too-small", "default-limits" if not three else "explicit", "bimodal" if not three else "explicit", "near-miss" if not three else "too-small", "near-miss" if not three else "explicit"]))
+        if mode == "near-miss":
+            # the grid misses (or exceeds) 1-alpha by a small multiple of alpha: the warning rule at its edge
+            alpha = float(10 ** sub.uniform(-6, -2.5))
+            spec = S.gen_spec(sub, structure=[None, 0], fams=["weibull", "lognormal", "lnnf", "expweib", "gengamma"], allow_hostile=False)
         if three:
             ncell = [int(sub.integers(10, 61 if tier == "quick" else 121)) for _ in range(3)]
         else:
@@ -39,6 +43,7 @@ def gen_cases(tier, seed, salt):
                 "mode": mode,
                 "ncell": ncell,
                 "delta_form": str(sub.choice(["list", "scalar", "array", "list"])),
+                "shortfall": float(sub.choice([-0.5, -0.1, 1e-4, 1e-3, 1e-2, 0.1, 0.5, 1.0, 3.0])),
                 "sub": int(sub.integers(1 << 31)),
                 "cost": float(np.prod(ncell)) / 2e4 + 0.5,
             }
@@ -106,7 +111,23 @@ def run(case, ctx, which):
     hdcmon.reset()
     hdcmon.JUDGE_SORTER[0] = which == "C15"
     kw = {}
-    if case["mode"] != "default-limits":
+    if case["mode"] == "near-miss":
+        # first (unconditional) variable: the top EDGE of the last cell sits at the quantile with exceedance alpha*(1+u),
+        # the conditional variable is covered generously - so the grid holds about 1 - alpha*(1+u): shortfall u*alpha
+        from . import refmodel as R
+
+        u = case["shortfall"]
+        fam0, p0 = spec["dims"][0]["fam"], spec["dims"][0]["params"]
+        edge = float(R.isf(fam0, alpha * (1 + u), **p0))
+        n0 = max(20, min(case["ncell"][0], 300))
+        d0 = edge / (n0 + 0.5)
+        lo1, hi1 = ref.dim_range(1, eps=alpha * 1e-7)
+        n1 = max(20, min(case["ncell"][1], 300))
+        lims = [(0.0, n0 * d0), (0.0, float(hi1))]
+        kw["limits"] = lims
+        kw["deltas"] = [d0, float(hi1) / n1]
+        ctx.cls("shortfall/alpha", u)
+    elif case["mode"] != "default-limits":
         if case["mode"] == "bimodal":
             lims = [(-6.0, 16.0), (-2.0, 20.0)]
         else:
